@@ -47,24 +47,32 @@ def _xs_impl(case):
     h = H([(o, c) for o, c in case["h"]])
     faces = set(case["faces"])
     outs = []
+    cur = {}
+
+    def trig(outcome):
+        st = cur["st"]
+        if st["raise_at"] is not None and outcome == st["raise_at"]:
+            e = E.make_exc(st["exc"])
+            cur["raised"].append(e)
+            raise e
+
+    # ONE predicate / expand / callback object for the whole history (what it does depends on the step in progress)
+    pred = lambda res: (trig(res.outcome), res.outcome in faces)[1]  # noqa: E731
+    expand = lambda hh, o: (trig(o), hh if o in faces else o)[1]  # noqa: E731
+    cb = lambda res: (trig(res.outcome), res.outcome)[1]  # noqa: E731
     for st in case["steps"]:
         raised = []
-
-        def trig(outcome, st=st, raised=raised):
-            if st["raise_at"] is not None and outcome == st["raise_at"]:
-                e = E.make_exc(st["exc"])
-                raised.append(e)
-                raise e
+        cur.update(st=st, raised=raised)
 
         try:
             with warnings.catch_warnings():
                 warnings.simplefilter("ignore")
                 if st["api"] == "explode":
-                    r = explode(h, lambda res: (trig(res.outcome), res.outcome in faces)[1], limit=st["n"])
+                    r = explode(H(h) if st.get("fresh") else h, pred, limit=E.py_limit(st["lim"]) if st.get("lim") else st["n"])
                 elif st["api"] == "foreach":
-                    r = foreach(lambda res: (trig(res.outcome), res.outcome)[1], h)
+                    r = foreach(cb, h)
                 else:
-                    r = h.substitute(lambda hh, o: (trig(o), hh if o in faces else o)[1], operator.__add__, max_depth=st["n"])
+                    r = h.substitute(expand, operator.__add__, max_depth=st["n"])
             outs.append(E.fmt_h(r))
         except BaseException as e:  # noqa: B902
             if isinstance(e, (KeyboardInterrupt, SystemExit, C.CaseTimeout)):
@@ -86,7 +94,8 @@ def _xs_oracle(case):
         elif st["api"] == "foreach":
             outs.append(E.fmt_dist(E.dist_of_items(case["h"])))
         else:
-            outs.append(E.fmt_dist(C08.spec_explode(case["h"], set(case["faces"]), ("i", st["n"]))))
+            lim = E.normalize(st["lim"]) if st.get("lim") and st["api"] == "explode" else ("i", st["n"])
+            outs.append(E.fmt_dist(C08.spec_explode(case["h"], set(case["faces"]), lim)))
     return " ; ".join(outs)
 
 
@@ -157,15 +166,20 @@ def shrink(case):
 def _gen_xs(rnd):
     import gen
 
-    items = [[o, c] for o, c in ((int(o.split(":")[1]), c) for o, c in gen.rand_h(rnd, 4, "int", counts=(1, 1, 2, 3))) ]
+    items = [[o, c] for o, c in ((int(o.split(":")[1]), c) for o, c in gen.rand_h(rnd, rnd.choice([1, 2, 4, 4]), "int", counts=(0, 1, 1, 2, 3))) ]
+    if not any(c for _, c in items):
+        items[0][1] = 1
     outs = [o for o, _ in items]
     faces = rnd.sample(outs, rnd.randint(1, max(1, len(outs) - 1)))
     steps = []
     for _ in range(rnd.randint(2, 4)):
         api = rnd.choice(["explode", "explode", "substitute", "foreach"])
         raising = rnd.random() < 0.5
-        steps.append(dict(api=api, n=rnd.choice([1, 1, 2]), raise_at=rnd.choice(outs) if raising else None,
-                          exc=rnd.choice([1, 2, 2, 3, 4, 5, 6, 8, 9, 10, 20, 30, 7])))
+        st = dict(api=api, n=rnd.choice([1, 1, 2]), raise_at=rnd.choice(outs) if raising else None,
+                  exc=rnd.choice([1, 2, 2, 3, 4, 5, 6, 8, 9, 10, 20, 30, 7]), fresh=rnd.random() < 0.5)
+        if api == "explode" and rnd.random() < 0.3:
+            st["lim"] = ["q", 1, rnd.choice([2, 3, 5, 9])]  # a limit of the other kind, same predicate object
+        steps.append(st)
     steps.append(dict(api=rnd.choice(["explode", "substitute"]), n=rnd.choice([0, 1, 2]), raise_at=None, exc=1))  # a probe that must succeed
     return dict(k="xs", h=items, faces=faces, steps=steps)
 
